@@ -13,6 +13,7 @@ import errno as _errno
 import hashlib
 import io
 import json
+import locale as _locale_mod
 import os
 import random
 import runpy
@@ -186,6 +187,8 @@ class SimRawStdout(io.RawIOBase):
         sim.syscall()
         if self.dead:
             sim.deliver_write_error(self.dead, len(self.accepted), repeat=True)
+            if self.dead == "EAGAIN":
+                return None
             raise _oserror(self.dead)
         if self.pending_error:
             name, persistent, fault = self.pending_error
@@ -193,6 +196,8 @@ class SimRawStdout(io.RawIOBase):
             if persistent:
                 self.dead = name
             sim.log("write_error_after_short_count", kind=name, at=len(self.accepted))
+            if name == "EAGAIN":
+                return None
             raise _oserror(name)
         pos = len(self.accepted)
         end = pos + len(data)
@@ -222,6 +227,10 @@ class SimRawStdout(io.RawIOBase):
             if persistent:
                 self.dead = fault["kind"]
             sim.deliver(fault, at=pos)
+            if fault["kind"] == "EAGAIN":
+                # a non-blocking descriptor that cannot take anything right now: write(2) fails
+                # with EAGAIN, which io.FileIO.write reports as None - not as an exception
+                return None
             raise _oserror(fault["kind"])
         self.accepted += data
         return len(data)
@@ -411,7 +420,7 @@ class _FakePopen:
         self._text = bool(
             kw.get("text") or kw.get("universal_newlines") or kw.get("encoding") or kw.get("errors")
         )
-        self._encoding = kw.get("encoding") or "utf-8"
+        self._encoding = kw.get("encoding") or sim.encoding
         self._errors = kw.get("errors") or "strict"
         out, rc = b"", 0
         # which git command?  (skip global options such as -C <dir> / -c k=v)
@@ -705,13 +714,15 @@ class Sim:
         if faults and twin is None:
             raise ValueError("a faulty plan needs the fault-free twin's footprint")
         self.bufsize = int(plan["env"].get("stdout_bufsize", 4096))
+        # the locale's text encoding: what open() without an encoding argument, sys.stdout and
+        # text-mode pipes use (UTF-8 almost everywhere; cp1252 on Windows, ISO-8859-x on legacy
+        # set-ups, ASCII in a C locale with the UTF-8 coercion switched off)
+        self.encoding = plan["env"].get("encoding") or "utf-8"
         self.faults = resolve_faults(faults, twin, self.bufsize) if faults else []
-        if plan["env"].get("stdout_mode", "block") == "unbuffered":
-            # CPython's unbuffered text layer ignores short raw writes (data loss below the tool);
-            # that is the interpreter's behaviour, not the tool's, so it is never injected there.
-            # The same goes for EAGAIN (a non-blocking fd 1): the raw layer returns None, the
-            # unbuffered text layer ignores it, the data is gone and nobody is told.
-            self.faults = [f for f in self.faults if not (f["op"] == "write" and f["kind"] in ("short", "EAGAIN"))]
+        # (Short and refused writes are injected whatever the buffering of sys.stdout.  With an
+        # unbuffered sys.stdout - python -u, PYTHONUNBUFFERED=1 - CPython's text layer hands each
+        # piece straight to the descriptor and ignores the count that comes back, so nothing below
+        # the tool absorbs them: the tool has to, or must fail loudly.)
         self.write_faults = [f for f in self.faults if f["op"] == "write"]
         self.step_faults = [f for f in self.faults if f["op"] in ("interrupt", "memerror", "kill")]
         self.kill_snapshot = None
@@ -1036,7 +1047,7 @@ class Sim:
                 buffering = kw.get("buffering", a[0] if a else -1)
                 if "b" in mode:
                     return proxy if buffering == 0 else io.BufferedWriter(proxy, self.bufsize if buffering in (-1, 1) else buffering)
-                enc = kw.get("encoding") or (a[1] if len(a) > 1 else None) or "utf-8"
+                enc = kw.get("encoding") or (a[1] if len(a) > 1 else None) or self.encoding
                 return io.TextIOWrapper(io.BufferedWriter(proxy, self.bufsize), encoding=enc, errors=kw.get("errors"), newline=kw.get("newline"), line_buffering=(buffering == 1))
             return self.real_open(file, mode, *a, **kw)
         rel = self.relproj(file)
@@ -1085,7 +1096,7 @@ class Sim:
             if "b" in mode:
                 real = io.BytesIO(raw_bytes)
             else:
-                enc = kw.get("encoding") or (a[1] if len(a) > 1 else None) or "utf-8"
+                enc = kw.get("encoding") or (a[1] if len(a) > 1 else None) or self.encoding
                 real = io.TextIOWrapper(io.BytesIO(raw_bytes), encoding=enc, errors=kw.get("errors"), newline=kw.get("newline"))
             self.probe("crlf_checkout")
         else:
@@ -1160,7 +1171,7 @@ class Sim:
             buf = io.BufferedReader(raw)
         if "b" in mode:
             return buf
-        enc = kw.get("encoding") or (a[1] if len(a) > 1 else None) or "utf-8"
+        enc = kw.get("encoding") or (a[1] if len(a) > 1 else None) or self.encoding
         return io.TextIOWrapper(buf, encoding=enc, errors=kw.get("errors"), newline=kw.get("newline"), line_buffering=(buffering == 1))
 
     def sim_replace(self, src, dst, *a, **kw):
@@ -1304,6 +1315,8 @@ class Sim:
             "readlink": os.readlink,
             "isatty": os.isatty,
             "fsync": os.fsync,
+            "getpreferredencoding": _locale_mod.getpreferredencoding,
+            "getencoding": getattr(_locale_mod, "getencoding", None),
         }
         # the *true* operating-system functions, captured when this module was imported: a second
         # simulated process started while another one is parked must not mistake the first one's
@@ -1350,15 +1363,17 @@ class Sim:
         FakePopen.sim = self
 
         mode = env.get("stdout_mode", "block")
+        # CPython: stdout is strict, except in the C locale (surrogateescape)
+        out_errors = "surrogateescape" if self.encoding == "ascii" else "strict"
         raw = SimRawStdout(self, tty=(mode == "line"))
         self.raw_stdout = raw
         if mode == "unbuffered":
-            out = io.TextIOWrapper(raw, encoding="utf-8", errors="strict", write_through=True)
+            out = io.TextIOWrapper(raw, encoding=self.encoding, errors=out_errors, write_through=True)
         else:
             out = io.TextIOWrapper(
                 io.BufferedWriter(raw, self.bufsize),
-                encoding="utf-8",
-                errors="strict",
+                encoding=self.encoding,
+                errors=out_errors,
                 line_buffering=(mode == "line"),
             )
         err = io.StringIO()
@@ -1368,6 +1383,10 @@ class Sim:
         exc_name = None
         tb_tail = ""
         argv = [self.tool_filename] + list(sel.get("argv") or argv_of(sel))
+        if self.encoding != "utf-8":
+            # the command line reaches the process as bytes (UTF-8 ones, from today's shells and
+            # build scripts); CPython decodes them with the locale's encoding and surrogateescape
+            argv = [a.encode("utf-8", "surrogateescape").decode(self.encoding, "surrogateescape") if not a.isascii() else a for a in argv]
         if sel.get("user_main"):
             # the user's own header, planted in the simulated file system and given as a main file
             from . import usermain as _um
@@ -1437,7 +1456,10 @@ class Sim:
 
             def sim_os_write(fd, data):
                 if fd == 1:
-                    return raw.write(data)
+                    n = raw.write(data)
+                    if n is None:  # EAGAIN: os.write raises where io.FileIO.write returns None
+                        raise BlockingIOError(_errno.EAGAIN, os.strerror(_errno.EAGAIN))
+                    return n
                 return _TRUE["os_write"](fd, data)
 
             os.write = sim_os_write
@@ -1464,6 +1486,9 @@ class Sim:
             os.chdir = sim_chdir
             os.isatty = lambda fd: (mode == "line") if fd == 1 else _TRUE["isatty"](fd)
             os.fsync = lambda fd: None if fd == 1 else _TRUE["fsync"](fd)
+            _locale_mod.getpreferredencoding = lambda do_setlocale=True: sim.encoding
+            if saved["getencoding"] is not None:
+                _locale_mod.getencoding = lambda: sim.encoding
             sys.settrace(self.tracer)
             try:
                 runpy.run_path(self.tool_filename, run_name="__main__")
@@ -1534,6 +1559,9 @@ class Sim:
             os.chdir = saved["chdir"]
             os.isatty = saved["isatty"]
             os.fsync = saved["fsync"]
+            _locale_mod.getpreferredencoding = saved["getpreferredencoding"]
+            if saved["getencoding"] is not None:
+                _locale_mod.getencoding = saved["getencoding"]
             _datetime_mod.date = saved["date"]
             _datetime_mod.datetime = saved["datetime"]
             _subprocess_mod.Popen = saved["Popen"]
